@@ -133,8 +133,8 @@ example : AtLines "the first line\n2. second (line), with punctuation\nlast one\
 
 /-! ## …and with arbitrary well-nested indentation
 
-`Blk` is the block structure of pre-parsed text: a plain line (followed by its newline and any number of
-blank lines), or an INDENT line, a non-empty list of blocks and a DEDENT line — to any depth.
+`Blk` is the block structure of pre-parsed text: a line that rule `line` reads (a plain line or a fully
+escaped line, followed by its newline and any number of blank lines), or an INDENT line, a non-empty list of blocks and a DEDENT line — to any depth.
 `AtBlks inp 0 bs inp.size`: the whole text reads as the list of blocks `bs`.  Every such text is accepted
 in full by the five structured roots: nested blocks go through `hier_block_indent` at the top level and
 through `nested_block_element` below it (mutual induction over the block structure). -/
@@ -152,25 +152,23 @@ example : AtBlks "a\n\x0e\nb\n\n\x0e\nc\n\x0f\n\x0f\nd\n".toList.toArray 0
     [.line ['a'], .nest [.line ['b'], .nest [.line ['c']]], .line ['d']] 17 := by
   have hs := C01_plain_starts
   simp only [List.all_eq_true] at hs
-  have pl : ∀ (inp : Array Char) (p : Nat) (c : Char), inp[p]? = some c → inp[p + 1]? = some '\n' → isPlain c = true →
-      AtPlain inp p [c] := fun inp p c h0 h1 hp => ⟨h0, hp, h1⟩
   have ip : ∀ c, plainStart c = true → isPlain c = true := fun c h => (plainStart_parts h).2.1
-  have ha := hs 'a' (by decide)
-  have hb := hs 'b' (by decide)
-  have hc := hs 'c' (by decide)
-  have hd := hs 'd' (by decide)
-  refine ⟨2, ⟨⟨'a', [], rfl, ha⟩, pl _ 0 'a' (by decide) (by decide) (ip _ ha), 0, ⟨by decide, by simp [NlRun]⟩, rfl⟩, 15, ?_, 17, ?_, rfl⟩
+  have line : ∀ (inp : Array Char) (p : Nat) (c : Char) (k : Nat), inp[p]? = some c → inp[p + 1]? = some '\n' →
+      plainStart c = true → NlRun inp (p + 1) (k + 1) → AtBlk inp p (.line [c]) (p + 1 + (k + 1)) :=
+    fun inp p c k h0 h1 hc hn => atBlk_plain_line p c [] ⟨h0, ip c hc, h1⟩ hc k hn
+  refine ⟨2, line _ 0 'a' 0 (by decide) (by decide) (hs _ (by decide)) ⟨by decide, by simp [NlRun]⟩, 15, ?_, 17, ?_, rfl⟩
   · refine ⟨by decide, by decide, by decide, by simp, 13, ?_, by decide, 0, ⟨by decide, by simp [NlRun]⟩, rfl⟩
-    refine ⟨7, ⟨⟨'b', [], rfl, hb⟩, pl _ 4 'b' (by decide) (by decide) (ip _ hb), 1, ⟨by decide, by decide, by simp [NlRun]⟩, rfl⟩, 13, ?_, rfl⟩
+    refine ⟨7, line _ 4 'b' 1 (by decide) (by decide) (hs _ (by decide)) ⟨by decide, by decide, by simp [NlRun]⟩, 13, ?_, rfl⟩
     refine ⟨by decide, by decide, by decide, by simp, 11, ?_, by decide, 0, ⟨by decide, by simp [NlRun]⟩, rfl⟩
-    exact ⟨11, ⟨⟨'c', [], rfl, hc⟩, pl _ 9 'c' (by decide) (by decide) (ip _ hc), 0, ⟨by decide, by simp [NlRun]⟩, rfl⟩, rfl⟩
-  · exact ⟨⟨'d', [], rfl, hd⟩, pl _ 15 'd' (by decide) (by decide) (ip _ hd), 0, ⟨by decide, by simp [NlRun]⟩, rfl⟩
+    exact ⟨11, line _ 9 'c' 0 (by decide) (by decide) (hs _ (by decide)) ⟨by decide, by simp [NlRun]⟩, rfl⟩
+  · exact line _ 15 'd' 0 (by decide) (by decide) (hs _ (by decide)) ⟨by decide, by simp [NlRun]⟩
 
 /-! ## From the raw text: any indentation whatsoever
 
 Putting C11's normal-form theorem (for **every** text, `pre_parse` yields balanced, well-placed
-markers) together with the acceptance of well-nested plain blocks: take any text whose lines, once
-trimmed, are empty or *good* — plain characters only, first character a `plainStart` character — with
+markers) together with the acceptance of well-nested blocks: take any text whose lines, once
+trimmed, are empty or *good* — plain characters only with a `plainStart` first character, or written
+with every character escaped (`\c₁\c₂…`, whatever the characters) — with
 **any** indentation pattern, tabs, blank lines, trailing blanks, any `indent_size ≥ 1`… The pre-parsed
 text is accepted in full by **all six documented roots** (a judgment without part markers keeps everything
 in `arguments`).  (The model's `preParse` is tied to the real
@@ -190,26 +188,27 @@ theorem C01_plain_text_any_indentation (n : Nat) (text : List Char) (root : Stri
   have he : inp = (unlines (toksKs bs)).toArray := by simp [inp, hpre, hb]
   rw [he]; exact this
 
-/-- non-vacuity: ragged indentation, a tab, blank lines and trailing blanks -/
-example : let text := "first line\n      deeper, (much)\n\n  \tback a bit  \n  same\nend\n".toList
+/-- non-vacuity: ragged indentation, a tab, blank lines, trailing blanks and a fully escaped line -/
+example : let text := "first line\n      deeper, (much)\n\n  \tback a bit  \n  \\P\\A\\R\\T\\ \\1\nend\n".toList
     pyStrip (detab 2 text) ≠ [] ∧ ∀ l ∈ (splitLines (pyStrip (detab 2 text))).map trimSpaces, l = [] ∨ GoodLine l := by
   intro text
   have hs := C01_plain_starts
   simp only [List.all_eq_true] at hs
   refine ⟨by decide +kernel, ?_⟩
   have hl : (splitLines (pyStrip (detab 2 text))).map trimSpaces =
-      ["first line".toList, "deeper, (much)".toList, [], "back a bit".toList, "same".toList, "end".toList] := by decide +kernel
+      ["first line".toList, "deeper, (much)".toList, [], "back a bit".toList, "\\P\\A\\R\\T\\ \\1".toList, "end".toList] := by
+    decide +kernel
   rw [hl]
   intro l hmem
   simp only [List.mem_cons, List.mem_nil_iff, or_false] at hmem
   have good : ∀ (c : Char) (r : List Char), c ∈ "abcdefghijklmnopqrstuvwxyz0123456789(\"'.,;:-é§".toList →
-      (∀ x ∈ c :: r, isPlain x = true) → GoodLine (c :: r) := fun c r hc hp => ⟨⟨c, r, rfl, hs c hc⟩, hp⟩
+      (∀ x ∈ c :: r, isPlain x = true) → GoodLine (c :: r) := fun c r hc hp => Or.inl ⟨⟨c, r, rfl, hs c hc⟩, hp⟩
   rcases hmem with rfl | rfl | rfl | rfl | rfl | rfl
   · exact Or.inr (good _ _ (by decide) (by decide +kernel))
   · exact Or.inr (good _ _ (by decide) (by decide +kernel))
   · exact Or.inl rfl
   · exact Or.inr (good _ _ (by decide) (by decide +kernel))
-  · exact Or.inr (good _ _ (by decide) (by decide +kernel))
+  · exact Or.inr (Or.inr ⟨'P', "ART 1".toList, by decide, by decide⟩)
   · exact Or.inr (good _ _ (by decide) (by decide +kernel))
 
 end Bluebell
